@@ -153,7 +153,7 @@ func start(o Options) (*Broker, error) {
 	once.Do(install)
 	var ln net.Listener
 	var err error
-	for i := 0; i < 40; i++ { // ephemeral ports can run out for a moment when hundreds of scenarios churn connections
+	for i := 0; i < 240; i++ { // (up to 12 s) ephemeral ports can run out for a moment when hundreds of scenarios churn connections
 		if ln, err = net.Listen("tcp", "127.0.0.1:0"); err == nil {
 			break
 		}
